@@ -117,6 +117,110 @@ pub struct World {
 
 pub const SIM_EPOCH_S: i64 = 1_700_000_000;
 
+// ---------------------------------------------------------------------------------------
+// process-backed actors: the same handshake through a shared memory page and futexes, for
+// actors that are forked child processes (own pid, own copy of every static, real death)
+// ---------------------------------------------------------------------------------------
+
+pub const ST_RUNNING: u32 = 0;
+pub const ST_PENDING: u32 = 1;
+pub const ST_GRANTED: u32 = 2;
+pub const ST_FINISHED: u32 = 3;
+
+#[repr(C)]
+pub struct ShmHeader {
+    pub ctl_word: std::sync::atomic::AtomicU32,
+    pub clock_ns: AtomicU64,
+}
+
+#[repr(C)]
+pub struct ShmSlot {
+    pub state: std::sync::atomic::AtomicU32,
+    pub kind: u32,
+    pub flags: i32,
+    pub fd: i32,
+    pub len: u64,
+    pub prev_ret: i64,
+    pub prev_errno: i32,
+    pub path_len: u32,
+    pub path: [u8; 512],
+    pub path2_len: u32,
+    pub path2: [u8; 1536],
+    pub act_tag: u32,
+    pub act_arg: u64,
+    pub next_preempt: u64,
+    pub last_ret: i64,
+    pub last_errno: i32,
+    pub panicked: u32,
+}
+
+pub unsafe fn futex_wait(addr: *const std::sync::atomic::AtomicU32, val: u32, timeout_ms: Option<u64>) {
+    let ts;
+    let tsp = match timeout_ms {
+        Some(ms) => {
+            ts = libc::timespec {
+                tv_sec: (ms / 1000) as i64,
+                tv_nsec: ((ms % 1000) * 1_000_000) as i64,
+            };
+            &ts as *const libc::timespec
+        }
+        None => std::ptr::null(),
+    };
+    libc::syscall(libc::SYS_futex, addr, libc::FUTEX_WAIT, val, tsp);
+}
+
+pub unsafe fn futex_wake(addr: *const std::sync::atomic::AtomicU32, n: i32) {
+    libc::syscall(libc::SYS_futex, addr, libc::FUTEX_WAKE, n);
+}
+
+pub const OP_KINDS: [OpKind; 16] = [
+    OpKind::Start,
+    OpKind::Boundary,
+    OpKind::Preempt,
+    OpKind::OpenRead,
+    OpKind::OpenWrite,
+    OpKind::Read,
+    OpKind::Write,
+    OpKind::Stat,
+    OpKind::Rename,
+    OpKind::Link,
+    OpKind::Unlink,
+    OpKind::Truncate,
+    OpKind::Mkdir,
+    OpKind::Rmdir,
+    OpKind::Symlink,
+    OpKind::Chmod,
+];
+
+pub fn action_encode(a: Action) -> (u32, u64) {
+    match a {
+        Action::Proceed => (0, 0),
+        Action::Fail(e) => (1, e as u64),
+        Action::Short(n) => (2, n as u64),
+        Action::CrashBefore => (3, 0),
+        Action::CrashAfter => (4, 0),
+        Action::CrashInside(n) => (5, n as u64),
+    }
+}
+
+pub fn action_decode(tag: u32, arg: u64) -> Action {
+    match tag {
+        1 => Action::Fail(arg as i32),
+        2 => Action::Short(arg as usize),
+        3 => Action::CrashBefore,
+        4 => Action::CrashAfter,
+        5 => Action::CrashInside(arg as usize),
+        _ => Action::Proceed,
+    }
+}
+
+pub struct ProcLink {
+    pub hdr: *mut ShmHeader,
+    pub slot: *mut ShmSlot,
+    /// what getpid() reports in this process (0 = the real pid)
+    pub fake_pid: i32,
+}
+
 pub struct Actor {
     pub id: usize,
     pub world: Arc<World>,
@@ -128,6 +232,7 @@ pub struct Actor {
     pub clock_skew_ns: i64,
     last_ret: Cell<i64>,
     last_errno: Cell<i32>,
+    proc_link: Option<ProcLink>,
 }
 
 thread_local! {
@@ -193,6 +298,76 @@ impl Actor {
             clock_skew_ns,
             last_ret: Cell::new(0),
             last_errno: Cell::new(0),
+            proc_link: None,
+        }
+    }
+
+    /// An actor that is a forked child process talking to its controller through `link`.
+    pub fn new_proc(
+        id: usize,
+        world: Arc<World>,
+        entropy_seed: u64,
+        clock_skew_ns: i64,
+        link: ProcLink,
+    ) -> Actor {
+        let mut a = Actor::new(id, world, entropy_seed, clock_skew_ns);
+        a.proc_link = Some(link);
+        a
+    }
+
+    pub fn fake_pid(&self) -> i32 {
+        self.proc_link.as_ref().map(|l| l.fake_pid).unwrap_or(0)
+    }
+
+    fn publish_and_exit(&self, l: &ProcLink) -> ! {
+        unsafe {
+            let slot = &mut *l.slot;
+            slot.last_ret = self.last_ret.get();
+            slot.last_errno = self.last_errno.get();
+            slot.state.store(ST_FINISHED, Ordering::SeqCst);
+            (*l.hdr).ctl_word.fetch_add(1, Ordering::SeqCst);
+            futex_wake(&(*l.hdr).ctl_word, 1);
+            libc::_exit(0)
+        }
+    }
+
+    fn yield_proc(&self, l: &ProcLink, op: Op) -> Decision {
+        unsafe {
+            let slot = &mut *l.slot;
+            slot.kind = OP_KINDS.iter().position(|k| *k == op.kind).unwrap_or(0) as u32;
+            slot.flags = op.flags;
+            slot.fd = op.fd;
+            slot.len = op.len as u64;
+            slot.prev_ret = self.last_ret.get();
+            slot.prev_errno = self.last_errno.get();
+            let p = op.path.as_bytes();
+            let n = p.len().min(slot.path.len());
+            slot.path[..n].copy_from_slice(&p[..n]);
+            slot.path_len = n as u32;
+            let p2 = op.path2.as_bytes();
+            let n2 = p2.len().min(slot.path2.len());
+            slot.path2[..n2].copy_from_slice(&p2[..n2]);
+            slot.path2_len = n2 as u32;
+            slot.state.store(ST_PENDING, Ordering::SeqCst);
+            (*l.hdr).ctl_word.fetch_add(1, Ordering::SeqCst);
+            futex_wake(&(*l.hdr).ctl_word, 1);
+            loop {
+                let st = slot.state.load(Ordering::SeqCst);
+                if st == ST_GRANTED {
+                    break;
+                }
+                futex_wait(&slot.state, st, Some(1000));
+            }
+            let d = Decision {
+                action: action_decode(slot.act_tag, slot.act_arg),
+                next_preempt: slot.next_preempt,
+            };
+            // the simulated clock is the controller's
+            self.world
+                .clock_ns
+                .store((*l.hdr).clock_ns.load(Ordering::SeqCst), Ordering::SeqCst);
+            slot.state.store(ST_RUNNING, Ordering::SeqCst);
+            d
         }
     }
 
@@ -218,6 +393,9 @@ impl Actor {
     /// Publish `op`, wake the controller, park until granted.
     pub fn yield_op(&self, mut op: Op) -> Decision {
         let _g = HarnessGuard::new();
+        if let Some(l) = &self.proc_link {
+            return self.yield_proc(l, op);
+        }
         op.prev_ret = self.last_ret.get();
         op.prev_errno = self.last_errno.get();
         let w = &self.world;
@@ -269,6 +447,11 @@ impl Actor {
     }
 
     fn die(&self) {
+        if let Some(l) = &self.proc_link {
+            // a real process death: nothing after this point runs, the kernel closes the
+            // descriptors, destructors (e.g. the temp file's unlink) never happen
+            self.publish_and_exit(l);
+        }
         self.ghost.set(true);
         let _g = HarnessGuard::new();
         let mut st = self.world.st.lock().unwrap();
@@ -277,6 +460,9 @@ impl Actor {
 
     pub fn finish(&self) {
         let _g = HarnessGuard::new();
+        if let Some(l) = &self.proc_link {
+            self.publish_and_exit(l);
+        }
         // close whatever the (possibly dead) actor left open
         for fd in self.fds.borrow_mut().drain(..) {
             unsafe { libc::syscall(libc::SYS_close, fd) };
@@ -559,6 +745,8 @@ unsafe fn mediated<F: FnMut(Option<usize>) -> i64>(a: &Actor, op: Op, mut real: 
         }
         Action::Short(n) => real(Some(n)),
         Action::CrashBefore => {
+            a.last_ret.set(-1);
+            a.last_errno.set(libc::EIO);
             a.die();
             set_errno(libc::EIO);
             -1
@@ -1136,6 +1324,17 @@ pub unsafe extern "C" fn clock_gettime(clk: libc::clockid_t, ts: *mut libc::time
     }
     let f: F = std::mem::transmute(f);
     f(clk, ts)
+}
+
+#[no_mangle]
+pub unsafe extern "C" fn getpid() -> libc::pid_t {
+    if let Some(a) = cur() {
+        let f = a.fake_pid();
+        if f != 0 {
+            return f;
+        }
+    }
+    sys!(libc::SYS_getpid) as libc::pid_t
 }
 
 #[no_mangle]
